@@ -29,16 +29,18 @@ _OPS_NOTE = ("Trusted: TLC, the TLA+ transcription of the oracle layer (LWW per 
 CHECKS = {
     "C04": dict(
         engine="tlc + h-crdt",
-        technique="TLC exhaustive model checking of MC_OrswotOps + edge-complete replay of the state graph on the real OrSWotSet",
+        technique="TLC exhaustive model checking of MC_OrswotOps + edge-complete replay of the state graph on the real OrSWotSet + TLC trace validation of every keyspace actor of the repository's own test suites",
         text=("TLC explores every arrival order of inserts/deletes (1 and 2 sources, bounded keys/origins/times) on the faithful "
               "model with LWW-per-key, return-value and will_apply invariants; then every transition of the bounded state graph is "
               "re-executed on the real OrSWotSet<N> and get()/return value/will_apply are compared with the specification's oracle. "
-              "Exhaustive within the bound, and bound to the code on every edge."),
-        design_ref="DESIGN.md section 7 C04",
+              "Exhaustive within the bound, and bound to the code on every edge. In the other direction the repository's own eventual-consistency, "
+              "sqlite and lmdb test suites are run with the guarded hooks on and every mutation every keyspace actor handles is validated against "
+              "Trace_KeyspaceActor.tla (same operators as Keyspace.tla)."),
+        design_ref="DESIGN.md section 7 C04 and 14.2",
         note=_OPS_NOTE),
     "C08": dict(
         engine="tlc + h-crdt",
-        technique="TLC exhaustive model checking (purge enabled in every state) + edge-complete replay on the real OrSWotSet",
+        technique="TLC exhaustive model checking (purge enabled in every state) + edge-complete replay on the real OrSWotSet + cluster behaviours replayed on real nodes with TLC trace validation of their keyspace actors",
         text=("Global clause: Cluster.tla with Purge enabled at any moment and time advancing under the timeliness guard converges to last-writer-wins over "
               "all issued operations (the never-purging outcome), exhaustively for a small config and by simulation with real-node replay beyond. "
               "Local clauses: on every reachable set of the bounded universes a purge leaves get() unchanged, removes only tombstones, "
